@@ -15,7 +15,7 @@ import ast
 
 from .. import lin, paths, storewalk, tables
 from ..model import AnalysisError, Project, self_attr, walk_no_nested
-from ..report import Result
+from ..report import Result, ctx_of
 from ..tables import RP, RG, RI
 from .common import events_atoms, site, src, sum_lin
 
@@ -129,6 +129,7 @@ def run(p: Project, tier: str) -> Result:
 
 def check_ready_append(p, ws, r):
     for w in ws.values():
+        r.ctx = ctx_of(w)
         s = w.store
         if s.ci.name != 'BufferStore':
             continue
